@@ -887,7 +887,11 @@ async fn handle_frontend_messages<S: TransportSenderT>(
 			let (subscribe_tx, subscribe_rx) = subscription_channel(max_buffer_capacity_per_subscription);
 
 			if manager.lock().insert_notification_handler(&reg.method, subscribe_tx).is_ok() {
-				let _ = reg.send_back.send(Ok((subscribe_rx, reg.method)));
+				// The caller may have given up on the registration in the meantime (future dropped): undo it, or
+				// the method would stay taken by a handler that nobody holds.
+				if let Err(Ok((_, method))) = reg.send_back.send(Ok((subscribe_rx, reg.method))) {
+					let _ = manager.lock().remove_notification_handler(&method);
+				}
 			} else {
 				let _ = reg.send_back.send(Err(RegisterMethodError::AlreadyRegistered(reg.method).into()));
 			}
